@@ -389,19 +389,33 @@ def polarity(prog: Program) -> RuleResult:
                 rets.append(n)
     if not rets:
         raise AnalysisError("EntryProxy.value: return on the missing-cell path not found")
-    for node in rets:
-        for policy, want in (("MIN", 1), ("MAX", -1)):
+    for policy, want in (("MIN", 1), ("MAX", -1)):
+        # the return(s) taken under this policy: a guard on the merge policy that is false under it rules a return out
+        # (`return inf if p == MIN else -inf` and `if p == MIN: return inf; return -inf` are the same thing)
+        taken = []
+        for node in rets:
+            alive = True
+            for g, pol in guards(pval, node):
+                verdict = _policy_guard(g, policy, ("merge_policy",))
+                if verdict is not None and verdict != pol:
+                    alive = False
+            if alive:
+                taken.append(node)
+        if not taken:
+            raise AnalysisError(f"EntryProxy.value: no return on the missing-cell path under {policy}")
+        for node in taken:
             got = _eval_inf(node.value, policy, policy_param_names=("merge_policy",))
             construct = f"{DP}:EntryProxy.value/missing/{policy}"
-            if got == want:
-                res.ok(construct, f"{short(node.value)}")
-            else:
-                res.fail(
-                    construct,
-                    f"a cell never written reads as `{short(node.value)}` which is not the worst value under {policy}",
-                    mod,
-                    node,
-                )
+            if True:
+                if got == want:
+                    res.ok(construct, f"{short(node.value)}")
+                else:
+                    res.fail(
+                        construct,
+                        f"a cell never written reads as `{short(node.value)}` which is not the worst value under {policy}",
+                        mod,
+                        node,
+                    )
 
     # (c) Entry.update: the replacement test
     _m, _c, upd = _entry_update(prog)
@@ -489,6 +503,19 @@ def polarity(prog: Program) -> RuleResult:
         raise AnalysisError(f"POLARITY: only {n_ctor} Entry(...) constructions found in the module")
     res.floor(9)
     return res
+
+
+def _policy_guard(test: ast.AST, policy: str, policy_param_names) -> Optional[bool]:
+    """truth of `<x>.merge_policy == MergePolicy.K` (or !=) under the given policy; None for any other test"""
+    if isinstance(test, ast.Compare) and len(test.ops) == 1 and isinstance(test.ops[0], (ast.Eq, ast.Is, ast.NotEq, ast.IsNot)):
+        for a, b in ((test.left, test.comparators[0]), (test.comparators[0], test.left)):
+            name = dotted(b)
+            if name and name.startswith("MergePolicy."):
+                ref = dotted(a) or ""
+                if any(ref.endswith(p) for p in policy_param_names):
+                    val = name.split(".", 1)[1] == policy
+                    return val if isinstance(test.ops[0], (ast.Eq, ast.Is)) else not val
+    return None
 
 
 def _eval_inf(expr: ast.AST, policy: str, policy_param_names) -> Optional[int]:
